@@ -3,7 +3,7 @@
    the same line format as harness/src/qty.rs (after tools/props/qtylib.py has
    normalised the implementation's f64 values into exact rationals). *)
 From Coq Require Import List ZArith QArith Qcanon String Bool.
-From NV Require Import Base.Show Qty.Model.
+From NV Require Import Base.Show Qty.Model Qty.Assert.
 Import ListNotations.
 Open Scope string_scope.
 
@@ -26,7 +26,8 @@ Definition QcN : numops Qc :=
   mkNum Qc 1%Qc Qcplus Qcminus Qcmult Qcdiv Qcopp qc_pow qc_prefix
         (fun x => Qc_eqb x 0%Qc) (fun _ => false) Qc_eqb
         (fun x y => match Qc_cmp x y with Gt => false | _ => true end)
-        (fun x y => Some (Qc_cmp x y)).
+        (fun x y => Some (Qc_cmp x y))
+        (fun x => if Qc_ltb x 0%Qc then (- x)%Qc else x).
 
 (* ---------------------------------------------------------------- environments *)
 Record env := mkEnv { e_tbl : table Qc; e_res : resolved (T := Qc); e_keys : list skey }.
@@ -156,3 +157,30 @@ Section Run.
     guard [u] (let '(b, f) := to_base QcN tbl res u in
                (if close (Q2Qc tol) f (Q2Qc impl) then "ok" else "val=" ++ show_qc f) ++ ":" ++ show_unit E b).
 End Run.
+
+(* ---------------------------------------------------------------- assertions (C21) *)
+Definition show_break (k : breakkind) : string :=
+  match k with
+  | AssertFailed => "E:assert"
+  | AssertEq2Failed => "E:assert_eq2"
+  | AssertEq3Failed => "E:assert_eq3"
+  | QuantityErr e => show_err e
+  | ProcPanic => "P"
+  end.
+
+Fixpoint stmt_units (p : list (stmt (T := Qc))) : list unit :=
+  match p with
+  | [] => []
+  | SAssert (VQ q) :: r => q_unit q :: stmt_units r
+  | SAssertEq2 a b :: r =>
+      (match a with VQ q => [q_unit q] | _ => [] end ++ match b with VQ q => [q_unit q] | _ => [] end
+       ++ stmt_units r)%list
+  | SAssertEq3 a b e :: r => q_unit a :: q_unit b :: q_unit e :: stmt_units r
+  | _ :: r => stmt_units r
+  end.
+
+Definition r_prog (E : env) (nexact : nat) (p : list (stmt (T := Qc))) : string :=
+  guard nexact (stmt_units p)
+    (let '(prints, o) := run_prog QcN (e_tbl E) (e_res E) (e_keys E) p in
+     (match o with None => "V:-" | Some k => show_break k end)
+       ++ "|" ++ join "," (map show_nat prints)).
